@@ -44,9 +44,11 @@ CHECKS = {
             "shared fields, tuples in tuples, deep nesting, long chains, 64 groups) are compiled and evaluated on the real code and the model. "
             "Parser completeness: C07_parse_complete_canonical and C07_parse_complete_minimal — for every well-formed AST the code's own LR tables "
             "parse its fully parenthesised AND its minimally parenthesised token rendering back to that AST (operator precedence and associativity "
-            "as resolved in the dumped tables are a theorem); both renderings are also fed to the real lexer+parser.",
+            "as resolved in the dumped tables are a theorem); conversely C07_parser_output_well_formed: whatever the tables accept is a well-formed AST, so "
+            "every accepted program re-prints to a text that parses back to the same AST; both renderings are also fed to the real lexer+parser.",
             TB + "Token lists with redundant parentheses beyond the two proved renderings are covered by correspondence; PyNameOK excludes the recorded finding family K1.", "6/C07"),
     "C10": ("proof", "Lean 4 theorems (monotone ramp over the interval rule and over the compiled index) + pairwise correspondence",
+            "C10_scaling_invariant: scaling every weight by a power of two changes no choice in the normal range (rounding commutes with exact scaling). "
             "C10_monotone_ramp: for weight vectors ordered by prefix shares no unit moves to a later-declared group (any n, any h); lifted to the "
             "index the code returns for integer weights; ordered pairs and real unit ids are run on the real code.",
             TB + "For decimal weights with different totals a unit exactly on a boundary grid point may differ (stated in DESIGN.md 6/C10).", "6/C10"),
